@@ -256,7 +256,7 @@ func c17RunDNS(tb drv.TB, rec *drv.Rec, sub string, c c17Case) {
 	}
 	if len(c.Second) > 0 && len(c.Second) <= 1400 {
 		want2 := c17Reference(c.Second)
-		if want2.err == nil && want2.qname == want.qname {
+		if want2.err == nil {
 			n2 := copy(buf, c17Frame(w, 53, 40000, w.Clients[0], c.Second))
 			var gerr2 error
 			if p, sig, st := drv.Catch(func() {
@@ -272,9 +272,23 @@ func c17RunDNS(tb drv.TB, rec *drv.Rec, sub string, c c17Case) {
 				fail("c17-dns-rejected", "well-formed second response rejected: %v", gerr2)
 				return
 			}
-			e := h.DNSFind(want.qname)
+			if want2.qname != want.qname {
+				// another name: the first entry stays exactly as it was, the second gets its own
+				if !cmp("DNSFind of the first name after a response about another name", h.DNSFind(want.qname)) {
+					return
+				}
+				if n := len(h.DNSTable); (want2.nstore == 0 && n != 1) || (want2.nstore > 0 && n != 2) {
+					fail("c17-dns-table-size", "two responses about %q and %q (storable records: %d and %d) left %d table entries", want.qname, want2.qname, want.nstore, want2.nstore, n)
+					return
+				}
+				rec.Class("dns: second response about another name")
+			}
 			missing := ""
 			for _, ws := range []c17Expect{want, want2} {
+				e := h.DNSFind(ws.qname)
+				if ws.nstore == 0 {
+					continue
+				}
 				for k := range ws.a4 {
 					if _, ok := e.IP4Records[k]; !ok {
 						missing += fmt.Sprintf(" A %v", k)
@@ -300,7 +314,9 @@ func c17RunDNS(tb drv.TB, rec *drv.Rec, sub string, c c17Case) {
 				fail("c17-dns-second-response-records-lost", "after a second response to the same question the stored entry lacks:%s", missing)
 				return
 			}
-			rec.Class("dns: second response to the same question merged")
+			if want2.qname == want.qname {
+				rec.Class("dns: second response to the same question merged")
+			}
 		}
 	}
 	// second independent reader of the same bytes (guards the builder)
@@ -735,7 +751,9 @@ func TestC17(t *testing.T) {
 		c := c17Case{Data: b, Kind: "dns"}
 		if rapid.IntRange(0, 2).Draw(t, "second") == 0 && len(m.Questions) == 1 {
 			m2 := gen.DNSMsg(t, gen.DNSOptions{Response: true})
-			m2.Questions = m.Questions
+			if rapid.IntRange(0, 2).Draw(t, "same question") != 0 || len(m2.Questions) != 1 {
+				m2.Questions = m.Questions
+			}
 			for i := range m2.Answers {
 				if m2.Answers[i].Type == 12 {
 					m2.Answers[i].Name = ref.Name{fmt.Sprint(rapid.IntRange(0, 255).Draw(t, "d2")), "2", "0", "10", "in-addr", "arpa"}
